@@ -15,6 +15,8 @@ from dsim import repo
 
 SEMANTIC_EDITS = ["version", "namespace"]
 TRIVIA_EDITS = ["lead_blank", "lead_comment", "tail_comment", "tail_newline"]
+NAMESPACE_TWINS = ["Tw", "tw", "TW", "T w", "T  w", "T\tw", "Tw\u00e9", "Tw\u00e8", "Tw\u200b", "Tw ", "Tw  ",
+                   "Tw#x", "Tw#y"]
 BREAKING_EDITS = ["syntax_error", "bad_import", "unknown_type"]
 
 
@@ -36,6 +38,14 @@ def apply_edit(text: str, edit: List[Any]) -> str:
         new, n = re.subn(r'(?m)^__xml_namespace__\s*=\s*"[^"]*"',
                          f'__xml_namespace__ = "https://verif.example/{arg}"', text)
         return new if n else text + f'\n# verif namespace {arg}\n'
+    if kind == "namespace_twin":
+        # near-twins: texts that differ only in case, in the length of a whitespace run, in one
+        # non-ASCII character or in trailing blanks *inside a string literal* - every one is
+        # another model text (other "$id" / xmlns) that a normalising cache key would conflate
+        twin = NAMESPACE_TWINS[int(arg or 0) % len(NAMESPACE_TWINS)]
+        new, n = re.subn(r'(?m)^__xml_namespace__\s*=\s*"[^"]*"',
+                         lambda _m: f'__xml_namespace__ = "https://verif.example/{twin}"', text)
+        return new if n else text + f'\n# verif namespace {twin}\n'
     if kind == "syntax_error":
         return text + "\n\nclass 0verif_bad:\n    pass\n"
     if kind == "bad_import":
